@@ -160,3 +160,74 @@ def register(reg):
                                      "activation's own closures (census of _context.py): nobody else writes them while a resolver runs")
     for s in (ResolveForwardRefs, ResolveResources, ResolveResourcesAsync):
         reg.add(s)
+
+
+class _Wrapper(FnSpec):
+    """C19: the wrapper installed by @inject: resolves the resources first (exactly once, before the function is entered - a failing lookup
+    therefore raises before the function body runs), then calls the original function exactly once with the caller's positional and
+    keyword arguments unchanged plus the resolved resources as keyword arguments, and returns its result."""
+    properties = ("C19",)
+    cell_types = dict(CELLS)
+    modifies = "rely"
+    may_raise = True
+    resolver = None
+    param_types = {"args": TUP(ANY), "kwargs": DICT(TSTR, ANY)}
+
+    def requires(self, F):
+        env = F.old_st.ghost["outer_env"]
+        d = F.old.fld("cell:injected_resources", env)
+        k = z3.Const("k!wq", Val)
+        return [("marker-table-holds-markers", z3.And(Val.is_ref(d), z3.ForAll([k], z3.Implies(F.old.d_has(Val.a(d), k), z3.And(
+            Val.is_ref(F.old.d_get(Val.a(d), k)), 0 <= Val.a(F.old.d_get(Val.a(d), k)), Val.a(F.old.d_get(Val.a(d), k)) < F.old.alloc)),
+            patterns=[F.old.d_get(Val.a(d), k)])))]
+
+    def _clauses(self, F, normal):
+        tr = F.new_st.trace
+        env = F.old_st.ghost["outer_env"]
+        func = F.old.fld("cell:func", env)
+        res_calls = [i for i, e in enumerate(tr) if e[0] == "spec_call" and e[1] == self.resolver]
+        res_rets = [i for i, e in enumerate(tr) if e[0] == "spec_ret" and e[1] == self.resolver]
+        calls = [i for i, e in enumerate(tr) if e[0] in ("opaque", "opaque-raise")]
+        out = [("resolves-exactly-once-and-first", z3.BoolVal(len(res_calls) == 1 and all(i > res_calls[0] for i in calls))),
+               ("function-entered-at-most-once-and-only-after-a-successful-resolution",
+                z3.BoolVal(len(calls) <= 1 and (not calls or (len(res_rets) == 1 and res_rets[0] < calls[0]))))]
+        for i in calls[:1]:
+            e = tr[i]
+            a = e[2]
+            out.append(("calls-the-original-function", e[1].t == func))
+            ok = z3.BoolVal(len(a) == 3)
+            if len(a) == 3 and res_rets:
+                ok = z3.And(a[0].t == F.t("args"), a[1].t == F.t("kwargs"), a[2].t == tr[res_rets[0]][3].t)
+            out.append(("arguments-pass-through-unchanged-plus-the-resolved-resources", ok))
+            if normal and e[0] == "opaque":
+                out.append(("returns-the-functions-result", F.result.t == e[3].t))
+        if normal:
+            out.append(("normal-return-only-through-the-function", z3.BoolVal(len(calls) == 1)))
+        return out
+
+    def local_ensures(self, F):
+        return self._clauses(F, True)
+
+    def local_raises(self, F):
+        return self._clauses(F, False)
+
+
+class SyncWrapper(_Wrapper):
+    qual = INJ + ".sync_wrapper"
+    resolver = INJ + ".resolve_resources"
+
+
+class AsyncWrapper(_Wrapper):
+    qual = INJ + ".async_wrapper"
+    resolver = INJ + ".resolve_resources_async"
+    suspends = True
+
+
+def register2(reg):
+    CELLS["resolve_resources"] = CLOSURE(INJ + ".resolve_resources")
+    CELLS["resolve_resources_async"] = CLOSURE(INJ + ".resolve_resources_async")
+    _Wrapper.cell_types = dict(CELLS)
+    SyncWrapper.cell_types = dict(CELLS)
+    AsyncWrapper.cell_types = dict(CELLS)
+    reg.add(SyncWrapper)
+    reg.add(AsyncWrapper)
